@@ -18,6 +18,7 @@ Spec forms added to the clause language (all exact definitions or uninterpreted 
 Lemma forms (each returns the ground instance of a theorem about an uninterpreted symbol, and records it as a fact; they are
 listed as TRUSTED mathematical facts in the evidence, see LEMMA_TEXT):
   be_cat(a, b)       be(a + b) == be(a) * 256**len(b) + be(b)
+  be_lt(b)           be(b) < 256**len(b)
   modpow_reduce(b, e, m)   m > 0 ==> modpow(b % m, e, m) == modpow(b, e, m)
   pow2_add(a, b)     a, b >= 0 ==> 2**(a + b) == 2**a * 2**b
 """
@@ -32,6 +33,7 @@ TAPE = z3.Function('tape', INT, INT, INT, BYTES)
 SYS_POS0 = z3.Int('sys_pos0')
 
 LEMMA_TEXT = ['be(a ++ b) == be(a) * 256**len(b) + be(b)   (positional notation; induction on len(b))',
+              'be(b) < 256**len(b)',
               '(b mod m)**e == b**e (mod m) for m > 0', '2**(a + b) == 2**a * 2**b for a, b >= 0',
               'ground facts attached to the uninterpreted symbols pow2, ipow, modpow, modinv, gcd, bitlen, be, le, rev '
               '(vf/pyvc/models.py, ops.py): each is an instance of the defining property of the python operation it names']
@@ -113,6 +115,13 @@ def sf_be_cat(E, st, args, kw):
     return val(st, mk_bool(t))
 
 
+def sf_be_lt(E, st, args, kw):
+    b = zbytes(args[0])
+    t = models.be_value(E, st, b) < ops.pow2(E, st, 8 * z3.Length(b))
+    st.fact(t)
+    return val(st, mk_bool(t))
+
+
 def sf_pow2_add(E, st, args, kw):
     a, b = (zint(x) for x in args)
     t = z3.Implies(z3.And(a >= 0, b >= 0), ops.pow2(E, st, a + b) == ops.pow2(E, st, a) * ops.pow2(E, st, b))
@@ -179,7 +188,7 @@ def sf_kwarg(E, st, args, kw):
 
 
 FORMS = {'ival': sf_ival, 'ipow': sf_ipow, 'modpow': sf_modpow, 'modinv': sf_modinv, 'gcd': sf_gcd, 'bitlen': sf_bitlen,
-         'bitand': sf_bitand, 'bitor': sf_bitor, 'be_cat': sf_be_cat, 'modpow_reduce': sf_modpow_reduce, 'pow2_add': sf_pow2_add,
+         'bitand': sf_bitand, 'bitor': sf_bitor, 'be_cat': sf_be_cat, 'be_lt': sf_be_lt, 'modpow_reduce': sf_modpow_reduce, 'pow2_add': sf_pow2_add,
          'systape': sf_systape, 'tape_of': sf_tape_of, 'tape': sf_tape, 'kwarg': sf_kwarg}
 for _nm, _fn in FORMS.items():
     interp.SPEC_BUILTINS.setdefault(_nm, BuiltinV('spec.' + _nm, _fn))
